@@ -36,6 +36,11 @@ class Prop(WalletProp):
             if c is not None:
                 cases.append({"kind": "Watch", "w": w, "export": exp, "v": v, "sub": [c, rng.randrange(0, H)]})
                 cases.append({"kind": "Watch", "w": w, "export": exp, "v": v, "sub": [c, 0, 1]})
+        # another watch-only wallet used on the same sub-path, then dropped and garbage-collected, before this one is used
+        for testnet, sub in ((False, [0, 0]), (True, [1, 5, 2]), (False, [0, 0, 0, 0])):
+            w = self.rand_wspec(rng, testnet)
+            b = {"w": self.rand_wspec(rng, testnet), "export": [84 + H, H, H], "v": PUBV[testnet][0], "rounds": 2}
+            cases.append({"kind": "Watch", "w": w, "export": [84 + H, H, H], "v": PUBV[testnet][0], "sub": sub, "before": [b, dict(b, w=self.rand_wspec(rng, testnet))]})
         w = self.rand_wspec(rng, False)
         for sub in ([H], [0, H + 1], [2 ** 32 - 1]):
             cases.append({"kind": "Watch", "w": w, "export": [44 + H, H, H], "v": PUBV[False][0], "sub": sub})
